@@ -850,6 +850,17 @@ def c18(prop, tier, seed, work):
         for i, h in enumerate(hs):
             progs.append({"id": "sim%d-%d" % (gi, i), "steps": h, "digs": ["d%d" % k for k in range(1, nd + 1)],
                           "tags": ["t%d" % k for k in range(1, nt + 1)], "subjs": ["s%d" % k for k in range(1, ns + 1)]})
+    # (2b) transition coverage of a small closure: one history per transition (shortest history to the state, then the operation)
+    for gi, (nd, nt, ns, ch) in enumerate([(2, 2, 0, 0)] if quick else [(2, 2, 0, 0), (2, 2, 1, 1)]):
+        cfg = INDEX_CFG % dict(spec="TSpec", digs=mset("d", nd), tags=mset("t", nt), subjs=mset("s", ns), child=ch, extra="CONSTANT Depth = 0\nVIEW View\nACTION_CONSTRAINT EmitT")
+        res = vlib.tlc(work, "ixtrans%d" % gi, "MCIndex", cfg, workers=1, timeout=1500)
+        hs = vlib.tlc_prints(res["out"], "PROG")
+        if "Error:" in res["out"] or len(hs) < 50:
+            raise Inconclusive("MCIndex transition coverage failed (%d histories):\n%s" % (len(hs), res["out"][-2000:]))
+        mc_notes.append("transition coverage %d digests x %d tags x %d subjects, children option <= %d: %d distinct states, %d transitions, each replayed on the real index" % (nd, nt, ns, ch, res["distinct"], len(hs)))
+        for i, h in enumerate(hs):
+            progs.append({"id": "trans%d-%d" % (gi, i), "steps": h, "digs": ["d%d" % k for k in range(1, nd + 1)],
+                          "tags": ["t%d" % k for k in range(1, nt + 1)], "subjs": ["s%d" % k for k in range(1, ns + 1)]})
     pf = work.path("ixprogs.ndjson")
     vlib.write_programs(pf, progs)
     tf = work.path("ixtrace.ndjson")
@@ -1142,6 +1153,14 @@ def c20(prop, tier, seed, work):
         if "Error:" in res["out"] or not ps:
             raise Inconclusive("MCCache generator failed:\n" + res["out"][-2000:])
         progs += ps
+    # directed: an entry is used twice less than a tenth of the age apart (Set at 110, Get at 121), and a timer run that is driven
+    # by an older entry (set at 99, due at 231) comes while the first of the two uses is older than the age and the second is not
+    def o(op, key=""):
+        return {"op": op, "key": key}
+    for age, t2 in ((120, 9), (115, 9)):
+        ops = [o("Set", "k1")] + [o("Tick")] * t2 + [o("Set", "k2"), o("Tick"), o("Set", "k3"), o("Tick"), o("Get", "k3"), o("Tick"), o("TimerFire")]
+        ops += [o("Tick")] * 9 + [o("TimerFire"), o("Get", "k3"), o("Tick"), o("TimerFire"), o("End")]
+        progs.append({"age": age, "count": 0, "step": 11, "fail": [], "ops": ops})
     pf, tf = work.path("cache-progs.ndjson"), work.path("cache-trace.ndjson")
     vlib.write_programs(pf, progs)
     env = dict(vlib.GOENV, VERIF_CACHE_PROGS=pf, VERIF_CACHE_TRACE=tf)
